@@ -214,8 +214,15 @@ func (c *FileCache[MetadataT]) Cache(key CacheKey, data io.Reader, expires time.
 	}
 
 	c.mu.Lock()
+	replaced, wasPresent := c.entriesMetadata[key]
 	c.entriesMetadata[key] = meta
 	c.mu.Unlock()
+
+	if wasPresent {
+		// Overwriting an existing key: the replaced entry no longer counts.
+		decrementCacheEntries()
+		decrementCacheSize(&c.byteSize, replaced.Size)
+	}
 
 	incrementCacheEntries()
 	addCacheSize(&c.byteSize, fileSize)
